@@ -16,6 +16,9 @@ import time
 from . import runner
 from .runner import Cond
 
+if runner.REPO + "/python" not in sys.path:
+    sys.path.insert(0, runner.REPO + "/python")
+
 VERIF = runner.VERIF
 
 SELFTEST = [
